@@ -199,7 +199,10 @@ def _shard(shard, nshards, tier, seed):
             rsets = rsets[:3] if machine == '48K' else (rsets[0], rsets[1], rsets[3])
         ivals = (0x3F, 0x40) if machine == '48K' else (0x3F, 0x40, 0xC0)
         for si, code0 in core.shard_iter(slot_list, shard, nshards):
-            fills = FILLINGS if not quick or machine == '48K' else FILLINGS[:1] + (FILLINGS[1],)
+            fills = FILLINGS
+            if code0[0] in (0xDD, 0xFD) and code0[1] != 0xCB:
+                # a positive displacement: (IX+d) on the other side of a contention boundary from IX itself
+                fills = FILLINGS + ((0x05, 0x60),)
             for (n1, n2), pc, (rname, rset) in itertools.product(fills, pcs, rsets):
                 ddcb = code0[0] in (0xDD, 0xFD) and code0[1] == 0xCB
                 if ddcb:
